@@ -71,6 +71,16 @@ claim("C02",
       GEN, "DESIGN.md 5/C02")
 
 
+claim("C12",
+      "The placement rules are written in Schema.tla from the documentation; TLC classifies every schema in the bound and shows that every behaviour of the version machine ends in a rule-conforming schema. The harness feeds each schema as the stdin schema in effect (accepted iff valid, refused without output otherwise, irrelevant when overridden), runs every ZervModel behaviour as producer | consumer (parse-back identical, byte-identical re-emission, piped rendering = direct rendering = the rendering predicted by ZervModel ; Render), and records hostile-text / custom-JSON objects and certainly malformed documents for Trace_Pipe.",
+      "Exhaustive over schemas with <= 3 (quick) / 4 (thorough) components over a 12-symbol alphabet, and over the MC_Zerv argument spaces; random hostile objects beyond. RON syntax itself is opaque.",
+      GEN, "DESIGN.md 5/C12")
+claim("C01",
+      "Decided by composition: (i) TLC proves on MC_Render that Render o Sanitizer lands in the SemVer language / PEP 440 normal forms for every rule-conforming schema in the bound; (ii) every stdout line of the whole-command runs generated from MC_Zerv, and of a recorder that puts hostile text in every free-text position under all 22 presets and random valid schemas, is judged by Trace_Output with the grammar modules: exactly prefix + one ASCII well-formed version, accepted by zerv's own check, unchanged by re-rendering for presets. Flow outputs are judged inside C04.",
+      "Design theorem exhaustive in the MC_Render bound; observed lines: thousands per run, random.",
+      "TLA+ design theorem checked by TLC + recorded output lines validated by TLC against the grammar modules", "DESIGN.md 5/C01")
+
+
 def main():
     m = {
         "version": 1,
